@@ -137,6 +137,56 @@ def rule_sheet_list(chk, fb):
     chk.ob(rs, "reader-order", bool(adds), where=fb.loc(r), detail="reader appends each <sheet> to the collection as it is met (document order): %s" % bool(adds))
 
 
+def rule_local_sheet_id(chk, fb):
+    """A sheet-scoped name is re-attached on load to the sheet at position localSheetId: what is written for a name kept
+    by a sheet has to be that sheet's position at the time of writing (not a stored number, which goes stale when sheets
+    are removed or added, and not the sheetId)."""
+    from cfg import CFG
+    from mirq import Flow
+    from props.C02 import _neg_guarded
+
+    r = chk.rule(
+        "C06.d",
+        "scope follows the owner: for every defined name kept by a sheet the workbook writer either writes no localSheetId (name without one) or writes one that derives from the sheet's position in the loop over the sheet list and from nothing else",
+        floor=1,
+    )
+    d = "writer::xlsx::workbook::write"
+    b = fb.mir.get(d)
+    if not b:
+        chk.ob(r, "anchor", False, detail="workbook writer not found")
+        return
+    chk.touch(d)
+    fl = Flow(fb, b)
+    cfg = CFG(b)
+    n = 0
+    for bi, t in fl.calls(lambda t: t.get("fn", "").endswith("DefinedName::write_to")):
+        recv = fl.atoms(t["args"][0])
+        if not any(a[0] == "call" and a[1].endswith("Worksheet::get_defined_names") for a in recv):
+            continue
+        why = ""
+        ok = bool(_neg_guarded(cfg, fl, b, bi, lambda a: a[1].endswith("DefinedName::has_local_sheet_id")))
+        if ok:
+            why = "written as stored only when the name has no localSheetId"
+        else:
+            clones = {a for a in recv if a[0] == "call" and a[1].endswith("Clone>::clone")}
+            for si, st in fl.calls(lambda t: t.get("fn", "").endswith("DefinedName::set_local_sheet_id")):
+                if not (cfg.dominates(si, bi) and clones & fl.atoms(st["args"][0])):
+                    continue
+                at = fl.atoms(st["args"][1])
+                pos = any(a[0] == "call" and "Enumerate" in a[1] and a[1].endswith("::next") for a in at)
+                other = sorted(a[1].split("::")[-1] for a in at if a[0] == "call" and a[1] in fb.mir and not a[1].endswith(("get_sheet_collection_no_check", "get_sheet_collection")))
+                other += sorted("%s.%s" % (a[1].split("::")[-1], a[2]) for a in at if a[0] == "field" and a[1] in fb.adts)
+                if pos and not other:
+                    ok = True
+                    why = "localSheetId is set from the loop position before writing"
+                else:
+                    why = "localSheetId is set from %s" % (other or "something that is not the loop position")
+            if not why:
+                why = "a name that has a localSheetId is written with the stored number (stale after remove_sheet / insertion: the reader re-attaches it to another sheet or panics past the last one)"
+        chk.ob(r, "workbook:sheet-kept-name#%d" % n, ok, where="%s:%s" % (b["file"], t["ln"]), detail=why)
+        n += 1
+
+
 def run(chk, fb, tier):
     # C06.a hyperlink <-> relationship pairing
     C02.rule_rid_pairs(chk, fb)
@@ -146,5 +196,6 @@ def run(chk, fb, tier):
     rule_sheet_list(chk, fb)
     # C06.c sheet-name uniqueness
     C02.rule_sheet_names(chk, fb, "C06.c")
+    rule_local_sheet_id(chk, fb)
     chk.assume("relationship ids pair by position; quick-xml delivers attributes in document order")
     chk.note("not decided: active-tab index after remove_sheet, comment/VML re-join by cell reference (value-level)")
